@@ -265,6 +265,30 @@ def gen_command(rng, bulk=False):
     return c
 
 
+def enum_commands(quick):
+    """Deterministic single commands (ranges stay <= 4 KiB)."""
+    rngs = ["", "0x1000", "0x100-0x1ff", "0xffc0-0xffff", "zz", "-1", "0x1000-", "5-2", "0xffffffff", "0xfffffff0-0xffffffff", "0x10000-0x100ff", "a-b",
+            "0x1000-0x10", "99999999999999999999", "0x", "start"]
+    addrs = ["0x1000", "0", "zz", "-1", "0xffff", "0x10000", "0xfffffffe", "0xffffffff", "", "start", "99999999999999999999"]
+    regs = ["r0", "r5", "r15", "r16", "r31", "r32", "r99", "pc", "sp", "sr", "a", "b", "x", "hl", "d0", "d7", "d8", "a7", "$t0", "$31", "$32", "zz", "", "c", "z",
+            "r-1", "cogid", "f0"]
+    if quick:
+        rngs, addrs, regs = rngs[:10], addrs[:8], regs[::2]
+    out = []
+    for c in ("print", "print16", "print32", "disasm", "dump_ram", "dumpram"):
+        out += ["%s %s" % (c, r) for r in rngs]
+    for c in ("write", "write16", "write32"):
+        out += ["%s %s 1 2 3" % (c, a_) for a_ in addrs] + ["%s 0x1000" % c, "%s 0x1000 zz" % c, "%s 0x1000 %s" % (c, "1 " * 300)]
+    for r in regs:
+        out += ["set %s=1" % r, "set %s=0xffffffff" % r, "clear %s" % r]
+    out += ["set", "set =", "set r5", "set r5=", "set =5", "clear", "clear 1", "clear -1", "clear 99"]
+    out += ["break %s" % a_ for a_ in addrs] + ["push %s" % v for v in ("1", "0xffffffff", "zz", "-1")] * 1
+    out += ["push 1\npush 2\npush 3\npush 4", "speed 0", "speed 1", "speed -1", "speed zz", "speed 99999999999999999999", "step", "step\nstep\nstep", "reset\nstep",
+            "info", "registers", "reg", "symbols", "display\nstep", "no_clear\ndisplay\nstep", "stop", "help", "?", "asm\nnop\n ", "asm 0x1000\nnop\n ", "asm zz\nnop\n ",
+            "asm 0x1000\n" + "X" * 600 + "\n ", "asm 0x1000\njunk junk\n ", "asm 0x1000\n.db 1,2,3\n ", "junk", "print8 0", "a" * 5000, "print " + "1" * 5000]
+    return out
+
+
 def gen_session(rng, bulk=False):
     n = rng.choice([1, 2, 3, 5, 8, 12])
     cmds = [gen_command(rng, bulk) for _ in range(n)]
@@ -426,6 +450,14 @@ def gen_cases(run, seeds):
             a = (["-" + cpu] if cpu else [])
             cases.append({"id": "nofile/session", "fmt": "none", "prog": None, "mcls": "nofile", "ccls": "session", "cpu": cpu, "fname": None, "data": None,
                           "args": a, "stdin": gen_session(rng), "bulk": False, "region": 0})
+    # enumerated one-command sessions: every command family x argument shapes x the six seed cpus and the default cpu
+    for pn in sorted(PROGS) + [None]:
+        for cmd in enum_commands(quick):
+            fmt = "hex" if pn else "none"
+            a = (["-" + pn] if pn else []) + ([fname_for("hex", pn)] if pn else [])
+            cases.append({"id": "enum-cmd/%s" % cmd.split(" ")[0], "fmt": fmt, "prog": pn, "mcls": "valid" if pn else "nofile", "ccls": "enum-session", "cpu": pn,
+                          "fname": fname_for("hex", pn) if pn else None, "mut": ("valid",), "data": None, "args": a, "stdin": cmd + "\n \nquit\n",
+                          "bulk": False, "region": 0})
     # mutated files
     for (pn, t) in keys:
         n = len(seeds[(pn, t)])
